@@ -14,6 +14,7 @@ import (
 
 	"github.com/idena-network/idena-go/blockchain"
 	"github.com/idena-network/idena-go/blockchain/attachments"
+	"github.com/idena-network/idena-go/blockchain/fee"
 	"github.com/idena-network/idena-go/blockchain/types"
 	"github.com/idena-network/idena-go/blockchain/validation"
 	"github.com/idena-network/idena-go/common"
@@ -315,7 +316,12 @@ func (s *Sender) Sign(n *Node, i int, tx *types.Transaction) *types.Transaction 
 	}
 	tx.AccountNonce, tx.Epoch = s.nonce[i]+1, ep
 	if tx.MaxFee == nil {
+		// validation refuses maxFee/minFeePerGas > block gas cap ("too high max fee"): scale with the network size
 		tx.MaxFee = Dna(200)
+		minFpg := fee.GetFeePerGasForNetwork(n.App.ValidatorsCache.NetworkSize())
+		if lim := new(big.Int).Mul(minFpg, big.NewInt(4000000)); lim.Cmp(tx.MaxFee) < 0 {
+			tx.MaxFee = lim
+		}
 	}
 	stx, err := types.SignTx(tx, s.W.Keys[i])
 	if err != nil {
